@@ -53,6 +53,26 @@ def cases(tier, rnd):
             parent = {"forest": f, "outs": o}
         out.append({"data": ds.to_json(), "parent": parent, "dp": m, "kind": KINDS[i % 3], "op": op,
                     "alpha": rnd.choice(["3/10", "1/1", "7/2"]), "perm": bool(i % 2), "n": n, "pseed": rnd.randrange(1 << 30)})
+    # very deep data: placements whose densities differ by more than the range of a double in the linear domain (> 745 nats).
+    # Outside C02's underflow window the code's likelihoods are floored by design, so the exact model is not compared; the
+    # statements of the property itself are judged on the code's own numbers: probabilities sum to one, every placement has a
+    # finite log-probability, draws match the reported probabilities, weights telescope.
+    for i in range(30 if tier == "quick" else 200):
+        m = rnd.choice([1, 2, 2, 3, 3, 4])
+        n = m + 1
+        S, G = rnd.randint(1, 2), rnd.randint(3, 4)
+        op = rnd.choice(["0/1", "1/10"])
+        # every data point has its mass at one "home" grid index per sample and is ~e^-800 elsewhere: joining a clone
+        # with another home is that much less likely than joining one with the same home
+        homes = [[rnd.randrange(G) for _ in range(S)] for _ in range(n)]
+        if i % 2:
+            homes[m] = list(homes[rnd.randrange(m)])  # the new point shares its home with one of the placed ones
+        vals = [[[Fraction(rnd.randint(1, 8), 8) / (1 if g == homes[j][sm] else (1 << rnd.choice([1150, 1200]))) for g in range(G)]
+                 for sm in range(S)] for j in range(n)]
+        ds = DataSet(vals, Fraction(1, 5) if op != "0/1" else Fraction(0))
+        f, o = random_canon_tree(rnd, m, outliers=(op != "0/1" and rnd.random() < 0.4), max_out=m)
+        out.append({"data": ds.to_json(), "parent": {"forest": f, "outs": o}, "dp": m, "kind": KINDS[i % 3], "op": op,
+                    "alpha": rnd.choice(["3/10", "1/1", "7/2"]), "perm": bool(i % 2), "n": n, "pseed": rnd.randrange(1 << 30), "deep": True})
     return out
 
 
@@ -178,6 +198,11 @@ def check(ctx, case):
             ctx.oracle_fail(case, f"sample() draws placement {reported[key][1]} with probability {ps:.10g}, log_p reports {pr:.10g}",
                             site + ".sample", "sample-vs-log_p", {"tree": [reported[key][2], reported[key][3]], "sampled": ps, "reported": pr})
             break
+    if case.get("deep"):
+        ctx.stat("deep_data_oracles_only")
+        telescoping(ctx, case, ds, td, perm)
+        ctx.done(case, nontrivial=True, sample={k: case[k] for k in ("parent", "dp", "kind", "op", "alpha", "perm")})
+        return
     # ---- correspondence with the model ----
     req = {"op": "prop", "data": case["data"], "cfg": {"kind": case["kind"], "op": case["op"], "alpha": case["alpha"], "perm": case["perm"]},
            "first": pt is None, "last": last, "parent": {"forest": f, "outs": o}, "dp": dp}
